@@ -3,10 +3,10 @@
    branch; decisions and literals come from Gen/GenConfig*.v (regenerated from /repo on every
    run).  No proofs in this file (Proofs/ConfigProofs.v).
 
-   Strings are [list Z] (code points).  Floats are modelled as exact rationals [Q] (the float
-   caveat is stated in the evidence: binary64 rounding is not modelled).                      *)
+   Strings are [list Z] (code points).  Floats are binary64 values with round-to-nearest-even
+   arithmetic (Model/ConfigFloatModel.v); float(str) and repr(float) are modelled below.      *)
 From Coq Require Import ZArith List Bool QArith Lia.
-From HV Require Import Gen.GenConfig Gen.GenConfigTime Gen.GenConfigMain Spec.ConfigSpec.
+From HV Require Import Gen.GenConfig Gen.GenConfigTime Gen.GenConfigMain Gen.GenConfigNatspec Spec.ConfigSpec Model.ConfigFloatModel.
 Import ListNotations.
 Open Scope Z_scope.
 
@@ -270,6 +270,49 @@ Definition fmt_hex (width : Z) (upper : bool) (v : Z) : list Z :=
   if v <? 0 then 45 :: zero_pad (width - 1) (map (digit_char upper) (to_digits 16 (- v)))
   else zero_pad width (map (digit_char upper) (to_digits 16 v)).
 
+(* ====================================================================== annotation text == *)
+
+(* build.parse_natspec(natspec):
+     isHalmosTag = False; result = ""
+     for item in re.split(r"(@\S+)", natspec.get("text", "")):
+         if item == "@custom:halmos": isHalmosTag = True
+         elif re.match(r"^@\S", item): isHalmosTag = False
+         elif isHalmosTag: result += item
+     return result.strip()
+   (shape and literals generated; the two regexes are pinned in Props/C18.v to the ones this
+   hand-written splitter reads: a tag is '@' followed by a maximal run of non-white-space) *)
+Definition next_nonws (r : list Z) : bool :=
+  match r with d :: _ => negb (is_ws d) | [] => false end.
+
+(* re.split(r"(@\S+)", s): text and tag items alternate, a text item (possibly empty) first and
+   last; [cur] is the item being read, reversed *)
+Fixpoint split_tags (s cur : list Z) (in_tag : bool) : list (list Z) :=
+  match s with
+  | [] => if in_tag then [rev cur; []] else [rev cur]
+  | c :: r =>
+      if in_tag then
+        if is_ws c then rev cur :: split_tags r [c] false else split_tags r (c :: cur) true
+      else
+        if (c =? 64) && next_nonws r then rev cur :: split_tags r [c] true
+        else split_tags r (c :: cur) false
+  end.
+
+(* re.match(r"^@\S", item) *)
+Definition is_tag_item (it : list Z) : bool :=
+  match it with c :: d :: _ => (c =? 64) && negb (is_ws d) | _ => false end.
+
+Fixpoint natspec_fold (items : list (list Z)) (flag : bool) (acc : list Z) : list Z :=
+  match items with
+  | [] => acc
+  | it :: r =>
+      if list_eqb it natspec_halmos_tag then natspec_fold r true acc
+      else if is_tag_item it then natspec_fold r false acc
+      else natspec_fold r flag (if flag then acc ++ it else acc)
+  end.
+
+Definition parse_natspec (text : list Z) : list Z :=
+  strip (natspec_fold (split_tags text [] false) false []).
+
 (* ====================================================================== codecs ========= *)
 
 (* ---- ParseCSVInt ---- *)
@@ -291,11 +334,16 @@ Definition errcodes_parse (s : list Z) : option (list Z) :=
        | None => None
        end.
 
+(* f"-0x{-v:02x}" if v < 0 else f"0x{v:02x}" (bound, prefixes and format specs generated) *)
+Definition errcodes_item (v : Z) : list Z :=
+  if v <? errcodes_neg_bound
+  then errcodes_neg_prefix ++ fmt_hex errcodes_neg_width errcodes_neg_upper (- v)
+  else errcodes_fmt_prefix ++ fmt_hex errcodes_fmt_width errcodes_fmt_upper v.
+
 Definition errcodes_unparse (l : list Z) : list Z :=
   match l with
   | [] => errcodes_unparse_any
-  | _ => join errcodes_join
-           (map (fun v => errcodes_fmt_prefix ++ fmt_hex errcodes_fmt_width errcodes_fmt_upper v) l)
+  | _ => join errcodes_join (map errcodes_item l)
   end.
 
 (* ---- ParseCSVTraceEvent (an event is its index in the TraceEvent enum) ---- *)
@@ -311,53 +359,201 @@ Definition trace_parse (s : list Z) : option (list Z) :=
 Definition trace_unparse (l : list Z) : list Z :=
   join trace_join (map (fun i => nth (Z.to_nat i) trace_event_names []) l).
 
-(* ---- float(x) for plain decimal literals: [ws] [sign] digitpart ["." [digitpart]] | "." digitpart
-        (exponents, inf, nan are outside the model) ---- *)
+(* ---- float(x): [ws] [sign] ( inf | infinity | nan | decimal ) [ws], case-insensitive words,
+        decimal = ( digitpart ["." [digitpart]] | "." digitpart ) [ (e|E) [sign] digitpart ],
+        digitpart = digit (["_"] digit)*  (ASCII digits).  The value is the exact decimal value
+        rounded once to the nearest float (CPython's strtod is correctly rounded). ---- *)
 Fixpoint span_not (c0 : Z) (s : list Z) : list Z * list Z :=
   match s with
   | [] => ([], [])
   | c :: r => if c =? c0 then ([], s) else let '(a, b) := span_not c0 r in (c :: a, b)
   end.
 
+Fixpoint span (p : Z -> bool) (s : list Z) : list Z * list Z :=
+  match s with
+  | [] => ([], [])
+  | c :: r => if p c then let '(a, b) := span p r in (c :: a, b) else ([], s)
+  end.
+
 Definition count_digits (s : list Z) : nat := length (filter (fun c => negb (c =? 95)) s).
 
-Definition py_float_unsigned (s : list Z) : option Q :=
-  let '(ip, rest) := span_not 46 s in
+Definition lower (c : Z) : Z := if (65 <=? c) && (c <=? 90) then c + 32 else c.
+
+Definition not_exp_char (c : Z) : bool := negb ((c =? 101) || (c =? 69)).
+
+(* mantissa digits: (D, E) stands for D * 10^E *)
+Definition py_mantissa (mant : list Z) : option (Z * Z) :=
+  let '(ip, rest) := span_not 46 mant in
   match rest with
-  | [] => option_map inject_Z (pdu 10 ip 0 false)
+  | [] => option_map (fun i => (i, 0)) (pdu 10 ip 0 false)
   | _ :: fp =>
       match ip, fp with
       | [], [] => None
       | _, _ =>
           match (match ip with [] => Some 0 | _ => pdu 10 ip 0 false end),
                 (match fp with [] => Some 0 | _ => pdu 10 fp 0 false end) with
-          | Some i, Some f =>
-              Some (inject_Z i + (f # 1) / inject_Z (10 ^ Z.of_nat (count_digits fp)))%Q
+          | Some i, Some f => let nf := Z.of_nat (count_digits fp) in Some (i * 10 ^ nf + f, - nf)
           | _, _ => None
           end
       end
   end.
 
-Definition py_float (s : list Z) : option Q :=
+Definition py_decimal (s : list Z) : option (Z * Z) :=
+  let '(mant, rest) := span not_exp_char s in
+  let exp := match rest with
+             | [] => Some 0
+             | _ :: x => with_sign (fun r => pdu 10 r 0 false) x
+             end in
+  match py_mantissa mant, exp with
+  | Some (D, E0), Some e => Some (D, E0 + e)
+  | _, _ => None
+  end.
+
+(* the float nearest to D * 10^E *)
+Definition f_of_decimal (neg : bool) (D E : Z) : f64 :=
+  if 0 <=? E then f_of_ratio neg (D * 10 ^ E) 1 else f_of_ratio neg D (10 ^ (- E)).
+
+Definition str_inf : list Z := [105; 110; 102].
+Definition str_infinity : list Z := [105; 110; 102; 105; 110; 105; 116; 121].
+Definition str_nan : list Z := [110; 97; 110].
+
+Definition py_float_unsigned (neg : bool) (s : list Z) : option f64 :=
+  let l := map lower s in
+  if list_eqb l str_inf || list_eqb l str_infinity then Some (FInf neg)
+  else if list_eqb l str_nan then Some FNan
+  else option_map (fun de => f_of_decimal neg (fst de) (snd de)) (py_decimal s).
+
+Definition py_float (s : list Z) : option f64 :=
   match strip_num s with
-  | c :: r => if c =? 43 then py_float_unsigned r
-              else if c =? 45 then option_map Qopp (py_float_unsigned r)
-              else py_float_unsigned (c :: r)
-  | [] => py_float_unsigned []
+  | c :: r => if c =? 43 then py_float_unsigned false r
+              else if c =? 45 then py_float_unsigned true r
+              else py_float_unsigned false (c :: r)
+  | [] => None
+  end.
+
+(* ---- repr(x) of a float: the shortest decimal string that float() reads back as x; among the
+        shortest, the one closest to x (CPython: float_repr_style 'short', dtoa mode 0), laid out
+        by format_float_short('r'): fixed notation when -4 < decpt <= 16, else d[.ddd]e(+|-)XX.
+        [repr_search] tries 1, 2, ..., 17 significant digits; every candidate is accepted only if
+        float() of the finished string is the float itself.  17 digits always suffice for a
+        binary64 value; the exact expansion k * 5^1074 e-1074 stands behind them so that the
+        function is total without that fact. ---- *)
+Definition sign_str (neg : bool) : list Z := if neg then [45] else [].
+
+(* 10^e <= k / 2^1074 *)
+Definition pow10_le (k e : Z) : bool :=
+  if 0 <=? e then 10 ^ e * F_UNIT <=? k else F_UNIT <=? k * 10 ^ (- e).
+
+Fixpoint adjust_e10 (fuel : nat) (k e : Z) : Z :=
+  match fuel with
+  | O => e
+  | S f => if pow10_le k (e + 1) then adjust_e10 f k (e + 1) else e
+  end.
+
+Definition floor_log10 (k : Z) : Z :=
+  adjust_e10 8 k ((Z.log2 k - 1074) * 30103 / 100000 - 2).
+
+(* the decimals D * 10^E next to k / 2^1074, the closer one first (ties: the even one);
+   lo = floor (k / (10^E * 2^1074)), computed with shifts *)
+Definition repr_candidates (k E : Z) : list Z :=
+  let '(lo, rem, den) :=
+    if 0 <=? E
+    then let p := 10 ^ E in
+         let lo := Z.shiftr k 1074 / p in
+         (lo, k - Z.shiftl (lo * p) 1074, Z.shiftl p 1074)
+    else let num := k * 10 ^ (- E) in
+         let lo := Z.shiftr num 1074 in
+         (lo, num - Z.shiftl lo 1074, F_UNIT) in
+  if rem =? 0 then [lo]
+  else if (2 * rem <? den) || ((2 * rem =? den) && Z.even lo) then [lo; lo + 1] else [lo + 1; lo].
+
+(* on the reversed digit string: drop trailing zeros (at least one character is kept) *)
+Fixpoint drop_zeros (rl : list Z) (E : Z) : list Z * Z :=
+  match rl with
+  | [] => ([], E)
+  | c :: r => match r with
+              | [] => (rl, E)
+              | _ => if c =? 48 then drop_zeros r (E + 1) else (rl, E)
+              end
+  end.
+
+Definition pad2 (s : list Z) : list Z := match s with [c] => [48; c] | _ => s end.
+
+Definition repr_fmt (neg : bool) (D E : Z) : list Z :=
+  let '(rds, E') := drop_zeros (rev (str_of_nonneg D)) E in
+  let ds := rev rds in
+  let n := Z.of_nat (length ds) in
+  let decpt := n + E' in
+  sign_str neg ++
+  (if (-4 <? decpt) && (decpt <=? 16) then
+     if decpt <=? 0 then [48; 46] ++ repeat 48 (Z.to_nat (- decpt)) ++ ds
+     else if n <=? decpt then ds ++ repeat 48 (Z.to_nat (decpt - n)) ++ [46; 48]
+     else firstn (Z.to_nat decpt) ds ++ [46] ++ skipn (Z.to_nat decpt) ds
+   else
+     let e := decpt - 1 in
+     match ds with
+     | [] => [48]
+     | d0 :: tl =>
+         [d0] ++ (match tl with [] => [] | _ => 46 :: tl end) ++ [101]
+              ++ [if e <? 0 then 45 else 43] ++ pad2 (str_of_nonneg (Z.abs e))
+     end).
+
+Definition repr_try (neg : bool) (k D E : Z) : option (list Z) :=
+  let s := repr_fmt neg D E in
+  match py_float s with
+  | Some w => if f_same w (FFin neg k) then Some s else None
+  | None => None
+  end.
+
+Fixpoint repr_first (neg : bool) (k E : Z) (cands : list Z) : option (list Z) :=
+  match cands with
+  | [] => None
+  | D :: r => match repr_try neg k D E with Some s => Some s | None => repr_first neg k E r end
+  end.
+
+Fixpoint repr_search (fuel : nat) (p : Z) (neg : bool) (k e10 : Z) : option (list Z) :=
+  match fuel with
+  | O => None
+  | S f =>
+      let E := e10 - p + 1 in
+      match repr_first neg k E (repr_candidates k E) with
+      | Some s => Some s
+      | None => repr_search f (p + 1) neg k e10
+      end
+  end.
+
+Definition repr_exact (neg : bool) (k : Z) : list Z :=
+  sign_str neg ++ str_of_nonneg (k * 5 ^ 1074) ++ [101; 45; 49; 48; 55; 52].
+
+Definition float_repr (v : f64) : list Z :=
+  match v with
+  | FNan => str_nan
+  | FInf neg => sign_str neg ++ str_inf
+  | FFin neg k =>
+      if k =? 0 then sign_str neg ++ [48; 46; 48]
+      else match repr_search 17 1 neg k (floor_log10 k) with
+           | Some s => s
+           | None => repr_exact neg k
+           end
   end.
 
 (* ---- utils.parse_time ---- *)
 Definition endswith (s suf : list Z) : bool :=
   (length suf <=? length s)%nat && list_eqb (skipn (length s - length suf) s) suf.
 
+(* float(arg[:-k]) [* mul | / div]  (one rounding per operation; None = ZeroDivisionError) *)
+Definition time_scale (x : f64) (mul div : Z) : option f64 :=
+  let y := if mul =? 1 then x else f_mul x (f_of_Z mul) in
+  if div =? 1 then Some y else f_div y (f_of_Z div).
+
 (* the if/elif chain over the generated unit table: Some r when a suffix matched *)
-Fixpoint parse_time_units (units : list (list Z * Z * Z * Z)) (arg : list Z) : option (option Q) :=
+Fixpoint parse_time_units (units : list (list Z * Z * Z * Z)) (arg : list Z) : option (option f64) :=
   match units with
   | [] => None
   | (suf, k, mul, div) :: r =>
       if endswith arg suf
       then Some (match py_float (firstn (length arg - Z.to_nat k) arg) with
-                 | Some x => Some (x * inject_Z mul / inject_Z div)%Q
+                 | Some x => time_scale x mul div
                  | None => None
                  end)
       else parse_time_units r arg
@@ -366,39 +562,99 @@ Fixpoint parse_time_units (units : list (list Z * Z * Z * Z)) (arg : list Z) : o
 Fixpoint mem_str (x : list Z) (l : list (list Z)) : bool :=
   match l with [] => false | y :: r => list_eqb x y || mem_str x r end.
 
+Definition f_zero : f64 := FFin false 0.
+
 (* parse_time(arg: str, default_unit) ; default_unit = None is the recursive call *)
-Definition parse_time (arg : list Z) (default_unit : option (list Z)) : option Q :=
+Definition parse_time (arg : list Z) (default_unit : option (list Z)) : option f64 :=
   match default_unit with
   | Some u => if nonempty u && negb (mem_str u time_allowed_default_units) then None
               else
                 match parse_time_units time_units arg with
                 | Some r => r
                 | None =>
-                    if list_eqb arg time_zero_literal then Some 0%Q
+                    if list_eqb arg time_zero_literal then Some f_zero
                     else if nonempty u then
                       match parse_time_units time_units (arg ++ u) with
                       | Some r => r
-                      | None => if list_eqb (arg ++ u) time_zero_literal then Some 0%Q else None
+                      | None => if list_eqb (arg ++ u) time_zero_literal then Some f_zero else None
                       end
                     else None
                 end
   | None =>
       match parse_time_units time_units arg with
       | Some r => r
-      | None => if list_eqb arg time_zero_literal then Some 0%Q else None
+      | None => if list_eqb arg time_zero_literal then Some f_zero else None
       end
   end.
 
 (* ---- ParseTimeout ---- *)
-Definition timeout_parse (s : list Z) : option Q := parse_time s (Some timeout_default_unit).
+(* what a float denotes (Spec.ConfigSpec.tval) *)
+Definition f_denote (v : f64) : tval :=
+  match v with
+  | FNan => TNan
+  | FInf neg => TInf neg
+  | FFin neg k => TFin (f_signed neg k # Z.to_pos F_UNIT)
+  end.
 
-(* int(x) on a float: truncation toward zero *)
-Definition q_trunc (x : Q) : Z := Z.quot (Qnum x) (Zpos (Qden x)).
+Definition timeout_parse (s : list Z) : option f64 := parse_time s (Some timeout_default_unit).
 
-Definition timeout_unparse (v : Q) : list Z :=
-  if negb (Qle_bool (inject_Z timeout_unparse_threshold) v)      (* value < 1 *)
-  then str_of_Z (q_trunc (v * inject_Z timeout_unparse_small_factor)) ++ timeout_unparse_small_suffix
-  else str_of_Z (q_trunc v) ++ timeout_unparse_large_suffix.
+(* parse_time(arg: int | float, default_unit) = parse_time(str(arg) + default_unit, default_unit=None)
+   when a default unit is given ([text] = str(arg): str_of_Z of an int, float_repr of a float);
+   a number in halmos.toml reaches ParseTimeout.parse this way *)
+Definition parse_time_num (text : list Z) (default_unit : option (list Z)) : option f64 :=
+  match default_unit with
+  | Some u => if nonempty u && negb (mem_str u time_allowed_default_units) then None
+              else if nonempty u then parse_time (text ++ u) None else None
+  | None => None
+  end.
+
+Definition timeout_parse_int (i : Z) : option f64 :=
+  parse_time_num (str_of_Z i) (Some timeout_default_unit).
+
+Definition timeout_parse_float (x : f64) : option f64 :=
+  parse_time_num (float_repr x) (Some timeout_default_unit).
+
+(* ParseTimeout.unparse(value); None = raises
+     if value == value and abs(value) != float("inf"):
+         if value >= 1 and value == int(value): return f"{int(value)}s"
+         ms = value * 1000
+         if ms == int(ms) and ms / 1000 == value: return f"{int(ms)}ms"
+     return f"{value!r}s"
+   (literals generated; `and` short-circuits, so int(...) / float(...) / the division are only
+   evaluated where Python evaluates them) *)
+Definition timeout_unparse (v : f64) : option (list Z) :=
+  let exact := Some (float_repr v ++ timeout_unparse_exact_suffix) in
+  let finite_guard :=
+    if f_eqb v v then
+      match py_float timeout_unparse_inf_literal with
+      | Some infv => Some (negb (f_eqb (f_abs v) infv))
+      | None => None
+      end
+    else Some false in
+  match finite_guard with
+  | None => None
+  | Some false => exact
+  | Some true =>
+      match (if f_geb_Z v timeout_unparse_threshold
+             then option_map (f_eqb_Z v) (f_trunc v) else Some false) with
+      | None => None
+      | Some true => option_map (fun i => str_of_Z i ++ timeout_unparse_large_suffix) (f_trunc v)
+      | Some false =>
+          let ms := f_mul v (f_of_Z timeout_unparse_small_factor) in
+          match f_trunc ms with
+          | None => None
+          | Some i =>
+              match (if f_eqb_Z ms i
+                     then option_map (fun q => f_eqb q v)
+                                     (f_div ms (f_of_Z timeout_unparse_small_divisor))
+                     else Some false) with
+              | None => None
+              | Some true => Some (str_of_Z i ++ timeout_unparse_small_suffix)
+              | Some false => exact
+              end
+          end
+      end
+  end.
 
 (* ---- ParseArrayLengths ----
    values = "".join(values.split()); re.match(check_re); re.findall(find_re); dict comprehension.
@@ -408,12 +664,6 @@ Definition timeout_unparse (v : Q) : list Z :=
    tied to the real code by the correspondence run. *)
 Definition is_digit (c : Z) : bool := (48 <=? c) && (c <=? 57).
 Definition is_special (c : Z) : bool := (c =? 61) || (c =? 44) || (c =? 123) || (c =? 125).
-
-Fixpoint span (p : Z -> bool) (s : list Z) : list Z * list Z :=
-  match s with
-  | [] => ([], [])
-  | c :: r => if p c then let '(a, b) := span p r in (c :: a, b) else ([], s)
-  end.
 
 Inductive arrlen_res :=
 | AOk (d : list (list Z * list Z))
